@@ -153,6 +153,36 @@ inline std::string findLockCycle()
 	return "";
 }
 
+// a thread that stays blocked acquiring a mutex that no thread holds (a lock whose release does not wake the waiter, e.g. a
+// spin lock that sleeps in lock() but never notifies in unlock()): sampled several times, 60 ms apart
+inline std::string findBlockedOnFreeLock()
+{
+	int stuckT = -1, stuckM = 0;
+	for(int round = 0; round < 4; ++round) {
+		int t0 = -1, m0 = 0;
+		for(int t = 0; t < MAXTHREADS; ++t) {
+			const int m = waitingFor()[t].load(std::memory_order_relaxed);
+			if(m == 0) continue;
+			if(heldBy()[(m - 1) % MAXMUTEX].load(std::memory_order_relaxed) != 0) return ""; // somebody holds it: an ordinary wait (or a cycle, reported elsewhere)
+			if(t0 < 0) { t0 = t; m0 = m; }
+		}
+		if(t0 < 0) return "";
+		if(round == 0) { stuckT = t0; stuckM = m0; }
+		else if(t0 != stuckT || m0 != stuckM) return "";
+		std::this_thread::sleep_for(std::chrono::milliseconds(60));
+	}
+	return "T" + num(stuckT) + " stays blocked acquiring M" + num(stuckM - 1) + " although no thread holds it (sampled 4 times over 240 ms after the scenario had made no progress for 15 s)";
+}
+// key + description of a deadlock among the monitored mutexes, or "" (then the lack of progress is inconclusive)
+inline std::string findDeadlock(std::string & key)
+{
+	std::string d = findLockCycle();
+	if(! d.empty()) { key = "deadlock:lock-cycle"; return d; }
+	d = findBlockedOnFreeLock();
+	if(! d.empty()) { key = "deadlock:thread-blocked-on-a-free-lock"; return d; }
+	return "";
+}
+
 template <typename Inner>
 struct MonMutexT
 {
